@@ -132,8 +132,8 @@ class WChar:
 
 class FloatLit:
     """the plain decimal text (digits with one '.') of a non-negative finite f64 term; no sign, no exponent"""
-    __slots__ = ('val',)
-    def __init__(self, val): self.val = val
+    __slots__ = ('val', 'lenv')
+    def __init__(self, val, lenv=None): self.val = val; self.lenv = lenv          # lenv: byte length of the text as a 64-bit term (bounded by the harness)
     def __repr__(self): return '{float %s}' % (self.val,)
 
 class DecRun:
